@@ -1,7 +1,7 @@
 (* C03 — Each reported path is the Normalized Path of the reported node.  Statements only. *)
 From Coq Require Import List NArith ZArith Bool.
 From JP Require Import Base Ast Eval ValueModel Spec NormPath Known WellFormed Regex Entry PathFacts
-  NormPathFacts Reference Requery.
+  NormPathFacts Build Reference Requery NpParse NpBuild StringLevel.
 Import ListNotations.
 
 (* the full statement (false of the code today: D6) *)
@@ -41,6 +41,16 @@ Theorem C03_requery_partial : forall q d ps p,
   m_query (np_query (ploc p)) d = Some [p].
 Proof. exact requery_reported. Qed.
 Print Assumptions C03_requery_partial.
+
+(* the same at string level: the reported path string, parsed (generated grammar + parser.rs)
+   and run again, returns exactly the reported node *)
+Theorem C03_requery_string_partial : forall q d ps p,
+  wf_query q = true -> segs_path_ok q = true -> doc_plain d = true -> wf_json d = true ->
+  m_query q d = Some ps -> In p ps ->
+  Forall plain_step (ploc p) -> Forall step_in_range (ploc p) ->
+  exists q', parse_query (path p) = POk q' /\ m_query q' d = Some [p].
+Proof. exact requery_string. Qed.
+Print Assumptions C03_requery_string_partial.
 
 (* the Normalized Path of any existing node selects that node; of a missing location, nothing *)
 Theorem C03_np_selects_node : forall d l v,
